@@ -23,6 +23,7 @@ EXPLANATION = (
     "(R4) stale decisions are cleared before activation is computed, END is never cleared, and END/None activate nothing; (R5) the list handed to a "
     "superstep is the scheduler's result; (R6) early start of a default-open gate's targets is granted only while that gate has never executed in "
     "this run (the test consults node_executions, not merely the absence of a decision). R4 also requires that a decision which is a single target name is compared by equality: a membership test on the decision is reachable only once an isinstance test established that it is a collection (for a str, `in` is substring containment). (R7) the controlling-gate relation that activation consults is computed from every gate's declared targets — the relation the gate-decides-first filter uses — not read back from graph edges (a control edge is omitted when another edge already links gate and target), and every gate kind contributes. R3 also requires that every ready gate takes part in the block (the only condition on the set of blocking gates is the node kind) and that activation consults the unfiltered list of declared controlling gates; (R8) every option a node factory/constructor accepts is used."
+    " (R9) the cache key covers every gate attribute the gate executors consult (targets, fallback, multi_target, branch names), so a routing decision restored on a hit was made under this gate's own configuration."
 )
 NOT_DECIDED = "The activation semantics over time: which decision sequence activates which target for a particular program and input."
 
@@ -521,4 +522,5 @@ VARIANTS = [
     Variant("name-decision-startswith", HP, replace_once("    return decision == node_name", "    return decision.startswith(node_name)"), {"C03.R4"}),
     Variant("twin-decision-list-or-tuple", HP, replace_once("    if isinstance(decision, list):\n        return node_name in decision\n    return decision == node_name", "    if isinstance(decision, (list, tuple)):\n        return node_name in decision\n    return node_name == decision"), set()),
     Variant("twin-activation-extract-helper", HP, replace_once("                if _is_node_activated_by_decision(node_name, decision):\n                    activated.add(node_name)\n                    break\n\n    return activated", "                hit = _is_node_activated_by_decision(node_name, decision)\n                if hit:\n                    activated.add(node_name)\n                    break\n\n    return activated"), set()),
+    Variant("route-cache-key-without-fallback", "src/hypergraph/runners/_shared/caching.py", replace_once("return (tuple(str(t) for t in node.targets), str(node.fallback), node.multi_target)", "return (tuple(str(t) for t in node.targets), node.multi_target)"), {"C03.R9"}),
 ]
